@@ -774,13 +774,55 @@ func (x *runCtx) aliasArgs(tc *taskCtx, op Op) Op {
 		}
 		return s
 	}
+	// ... or by a prefix of a short string Get returned in an EARLIER run of this
+	// process (litTable): those are the library's own literals, and a prefix
+	// of one shares its storage
+	lit := func(s string) string {
+		if s == "" {
+			return s
+		}
+		n0 := tc.probes.AliasedArgs
+		if t := find(s); tc.probes.AliasedArgs != n0 {
+			return t // found in the vault
+		}
+		best := ""
+		for _, v := range litTable {
+			if len(v) >= len(s) && v[:len(s)] == s && len(v) > len(best) {
+				best = v
+			}
+		}
+		if best != "" {
+			tc.probes.AliasedArgs++
+			return best[:len(s)]
+		}
+		return s
+	}
 	switch op.K {
 	case kGet, kParse:
 		op.S = find(op.S)
 	case kSet:
-		op.S, op.S2 = find(op.S), find(op.S2)
+		op.S, op.S2 = find(op.S), lit(op.S2)
 	}
 	return op
+}
+
+// litTable: short strings returned by Get in earlier runs of this process, one
+// per content. Written between runs only (main goroutine), read by the tasks.
+var litTable []string
+
+func litAdd(vault []vaultEntry) {
+	for _, e := range vault {
+		if e.what != kGet || len(e.s) == 0 || len(e.s) > 16 || len(litTable) >= 256 {
+			continue
+		}
+		dup := false
+		for _, v := range litTable {
+			dup = dup || v == e.s
+		}
+		if !dup {
+			litTable = append(litTable, e.s)
+		}
+	}
 }
 
 func errIdent(err error) string {
@@ -1100,6 +1142,9 @@ func runPlan(p *Plan, trace bool, collectCover bool) *runResult {
 		res.Probes.add(&tc.probes)
 		res.recs = append(res.recs, tc.recs...)
 		res.eq = append(res.eq, tc.eq...)
+	}
+	for _, tc := range x.tasks {
+		litAdd(tc.vault)
 	}
 	c14 := p.Prop == "C14"
 	if c14 {
